@@ -7,6 +7,8 @@ impl Mutex<u32> {
     pub fn new(v: u32) -> (r: Mutex<u32>) { unimplemented!() }
     #[verifier::external_body]
     pub fn lock(&self, Tracked(w): Tracked<&mut World>) -> (g: &mut u32)
+        requires
+            old(w).height >= old(w).height_read,   // #critical_sections_never_lower_the_height [C20,C04]: what the previous section left is not below what it found
         ensures
             *g as int >= old(w).height,          // other holders only raise the value (their guarantee = this unit's postcondition)
             *final(w) == (World { height: *final(g) as int, height_read: *g as int, ..*old(w) }),
